@@ -21,7 +21,7 @@ PROPS = {
         "level": "proof",
         "harness": ["purediff", "gwrun"],
         "stages": [("pure", stage_pure, {"suites": ["pattern", "lcs", "ressub"], "n_quick": 6000, "n_thorough": 150000}),
-                   ("gw", stage_gw, {"profiles": [("reset", 600, 6000), ("resetf", 300, 2500), ("accchurn", 200, 2000), ("scthr1", 250, 2000), ("thr2", 150, 1500)],
+                   ("gw", stage_gw, {"profiles": [("reset", 600, 6000), ("resetf", 300, 2500), ("accchurn", 200, 2000), ("scthr1", 250, 2000), ("thr2", 150, 1500), ("resetdel", 300, 2500)],
                                      "monitor_props": ("C12", "C01")})],
         "rule": "patterns/names over a token alphabet with wildcards, invalid tokens and byte mutations (names derived from the pattern "
                 "so matches are frequent); all pairs of collections up to length 3 over 2 value classes plus random edit-distance pairs "
@@ -116,7 +116,7 @@ PROPS = {
         "level": "proof",
         "harness": ["gwrun"],
         "stages": [("core", stage_core, {"n_quick": 1500, "n_thorough": 20000}),
-                   ("gw", stage_gw, {"profiles": [("basic", 200, 2000), ("refs", 300, 3000), ("churn", 300, 3000), ("access", 250, 2000), ("scacc", 250, 2000), ("reset", 300, 2000), ("accrefs", 200, 1500), ("legacy", 200, 1500), ("scgraph", 250, 2000), ("resetf", 300, 2500), ("wild", 0, 1500)]})],
+                   ("gw", stage_gw, {"profiles": [("basic", 200, 2000), ("refs", 300, 3000), ("churn", 300, 3000), ("access", 250, 2000), ("scacc", 250, 2000), ("reset", 300, 2000), ("accrefs", 200, 1500), ("legacy", 200, 1500), ("scgraph", 250, 2000), ("resetf", 300, 2500), ("resetdel", 300, 2500), ("wild", 0, 1500)]})],
         "rule": "as C01; every service event carries a unique tag; per client and resource the delivered events must be a contiguous run "
                 "of the service stream (candidate-position tracking, no false alarm on repeated identical events), nothing missing at quiescence",
         "assumptions": ["no resets/query events in this stage (superseded events are not exercised)"],
@@ -187,9 +187,10 @@ PROPS = {
     "C09": {
         "coq": ["Props/C09.v"],
         "level": "proof",
-        "harness": ["gwrun"],
-        "stages": [("core", stage_core, {"n_quick": 1500, "n_thorough": 20000}),
-                   ("gw", stage_gw, {"profiles": [("churn", 600, 5000), ("long", 300, 2000), ("scdisc", 400, 3000), ("http", 250, 2000), ("basic", 150, 1000)]})],
+        "harness": ["gwrun", "purediff"],
+        "stages": [("pure", stage_pure, {"suites": ["ressub"], "n_quick": 3000, "n_thorough": 60000}),
+                   ("core", stage_core, {"n_quick": 1500, "n_thorough": 20000}),
+                   ("gw", stage_gw, {"profiles": [("churn", 600, 5000), ("long", 300, 2000), ("scdisc", 400, 3000), ("http", 250, 2000), ("basic", 150, 1000), ("resetdel", 400, 3000)]})],
         "rule": "histories with disconnects, evictions fired at arbitrary moments, failing gets, delete events, resource ids around the control-line limit; "
                 "ending with every client gone and every eviction timer fired; monitor at each quiescent point (introspection): use count = subscribers, "
                 "unused <-> queued for eviction, entries = event subscriptions, every get under a standing subscription, data served only after a fetch under "
